@@ -370,7 +370,10 @@ def main():
                      'undecoded (mask_and_scale=False, signed and unsigned padding), in dask chunks, derived from an opened file, '
                      'big-endian, as transposed views, in mixed precision and with narrow tables is observed through this '
                      'property\'s entry point and must be answered as its plain in-memory holder is; the cells involved are '
-                     'compared with the coordinate model of C06.')
+                     'compared with the coordinate model of C06.  History part: the same question again on the same object, after '
+                     'other datasets (same shape and names; a near twin) were processed, after other questions - some refused - were '
+                     'asked first, after the data were replaced in place, and against a fresh interpreter; the dataset asked about is '
+                     'left as it was.')
         checks.append({
             'property_id': pid,
             'quick_cmd': f'./check {pid} quick',
